@@ -1921,6 +1921,9 @@ def shape(t, depth=0):
         n = re.sub(r"<[^<>]*>", "", n)
         n = re.sub(r"<[^<>]*>", "", n)
         n = "::".join(n.split("::")[-2:])
+        if n in ("cmp::min", "cmp::max"):
+            # commutative: min(a, b) and min(b, a) are one construct
+            return "%s(%s)" % (n, ",".join(sorted(shape(a, depth + 1) for a in t[2])))
         return "%s(%s)" % (n, ",".join(shape(a, depth + 1) for a in t[2]))
     if k == "agg":
         return "%s{%s}" % (t[1].split("::")[-1] + ("::" + t[2] if t[2] else ""), ",".join("%s:%s" % (f, shape(v, depth + 1)) for f, v in t[3]))
